@@ -2,7 +2,7 @@
 # usage: [R=3] round2.sh PROP [props to run, comma list] — collect a round-R sub-agent's output and run the quick check against each change
 P=$1; PROPS=${2:-$1}; R=${R:-2}
 cd /verif
-if [ -d /tmp/wt${R}_$P/_seeded ]; then rm -rf seeded/_incoming/${P}_r$R; mkdir -p seeded/_incoming/${P}_r$R; for f in A.patch B.patch C.patch demo_A.py demo_B.py demo_C.py needs.json notes.md; do [ -f /tmp/wt${R}_$P/_seeded/$f ] && cp /tmp/wt${R}_$P/_seeded/$f seeded/_incoming/${P}_r$R/; done; for f in /tmp/wt${R}_$P/_seeded/_*.py; do [ -f "$f" ] && cp $f seeded/_incoming/${P}_r$R/; done; git -C /repo worktree remove --force /tmp/wt${R}_$P; fi
+if [ -d /tmp/wt${R}_$P/_seeded ]; then rm -rf seeded/_incoming/${P}_r$R; mkdir -p seeded/_incoming/${P}_r$R; for f in A.patch B.patch C.patch demo_A.py demo_B.py demo_C.py needs.json notes.md; do [ -f /tmp/wt${R}_$P/_seeded/$f ] && cp /tmp/wt${R}_$P/_seeded/$f seeded/_incoming/${P}_r$R/; done; for f in /tmp/wt${R}_$P/_seeded/_*.py /tmp/wt${R}_$P/_seeded/demo_common.py; do [ -f "$f" ] && cp $f seeded/_incoming/${P}_r$R/; done; git -C /repo worktree remove --force /tmp/wt${R}_$P; fi
 sed -i -E '/^\s*assert cyecca\.__file__\.startswith\("\/tmp\/wt/d' seeded/_incoming/${P}_r$R/demo_*.py 2>/dev/null
 export MPLBACKEND=Agg
 for x in A B C; do
